@@ -12,6 +12,7 @@ package c05
 
 import (
 	"fmt"
+	"time"
 
 	"go.sia.tech/core/types"
 	"verifharness/chainx"
@@ -526,8 +527,45 @@ func revertedParent(r *vh.Run, rng *vh.RNG, name string) {
 	w.Finish(reorged && ok, "reverted-parent")
 }
 
+// aheadTip: the tip's timestamp runs ahead of the wall clock, right below the 3h future limit (a
+// legal block of a peer whose clock is ahead).  A block assembled by MineBlock on it must be accepted.
+func aheadTip(r *vh.Run, rng *vh.RNG, name string, margin time.Duration) {
+	w := poolrig.NewWorld(r, rng, name, chainx.PoolNetInterval(rng, 1, 1000, 10*time.Minute))
+	g := &poolrig.Gen{W: w, Rng: rng}
+	g.Track = poolrig.NewTracker(w)
+	tip := 0
+	for i := 0; i < 12; i++ {
+		tip = w.GrowRandom(tip, 0)
+	}
+	w.Refresh()
+	for i := 0; i < 3; i++ {
+		g.Step()
+	}
+	// the ahead-of-clock tip
+	tip = w.TipID()
+	target := time.Now().Add(3*time.Hour - margin)
+	dt := int(target.Sub(w.Tree.Blocks[tip].Block.Timestamp) / time.Second)
+	id, err := w.Tree.MineWith(rng, tip, nil, nil, dt)
+	if err != nil {
+		w.C.Oracle("generator-block-invalid", "ahead-of-clock block: %v", err)
+		w.Finish(false, "ahead-tip-skipped")
+		return
+	}
+	w.Submit(id)
+	w.Refresh()
+	g.Track.Check()
+	ahead := w.TipID() == id
+	for i := 0; i < 2; i++ {
+		g.Step()
+	}
+	_, ok := w.Mine()
+	w.Refresh()
+	g.Track.Check()
+	w.Finish(ahead && ok, "ahead-tip", fmt.Sprintf("ahead-tip-margin:%s", margin))
+}
+
 func Run(r *vh.Run) {
-	r.Rule = "four case families. history: one real chain.Manager on a growing fork tree driven by 50-90 steps mixing the C14 submission classes (fresh, chained/ephemeral, known, conflicting at k, invalid at k, stale/unknown basis) with blocks confirming pool prefixes, fork branches that overtake the tip (reorg depth 1-3), parent/child sets followed by an unrelated block, and blocks assembled by coreutils.MineBlock; non-trivial = at least one reorg and one accepted set. near-full: ten 1.9M-weight transactions (just below the eviction threshold), then a rejected set whose heavy first member would cross it and whose last member double-spends a pooled input; the next query must report the same pool. resubmit: a 1.7-1.9M-weight pooled transaction (and its child) resubmitted 12 times between two blocks inside sets that also carry a new small transaction (the skipped members must not count towards the pool weight: 12 x 1.8M would reach the eviction threshold), v2 / v1. reverted-parent: two 1.2M-weight v1 transactions queued, a v1 parent confirmed, its v2 child pooled, a reorg that reverts the parent (pool: v1 [H1, H2, P], v2 [C unconfirmed again]), then MineBlock. heavy-parent: a pool whose first non-fitting transaction (1.1-1.4M weight behind another one) is the parent of later small ones, v2 / v1 / mixed, then MineBlock. exact-weight: a pool prefix weighing MaxBlockWeight-d for d in {0,1,5,11,12,13,500}, v1 or v2, with or without v2 block data, then MineBlock twice. full-pool: 14 transactions of 1.5-1.9M weight with distinct fee rates (eviction at 10 x MaxBlockWeight), then MineBlock; distinct = distinct op lists"
+	r.Rule = "four case families. history: one real chain.Manager on a growing fork tree driven by 50-90 steps mixing the C14 submission classes (fresh, chained/ephemeral, known, conflicting at k, invalid at k, stale/unknown basis) with blocks confirming pool prefixes, fork branches that overtake the tip (reorg depth 1-3), parent/child sets followed by an unrelated block, and blocks assembled by coreutils.MineBlock; non-trivial = at least one reorg and one accepted set. near-full: ten 1.9M-weight transactions (just below the eviction threshold), then a rejected set whose heavy first member would cross it and whose last member double-spends a pooled input; the next query must report the same pool. resubmit: a 1.7-1.9M-weight pooled transaction (and its child) resubmitted 12 times between two blocks inside sets that also carry a new small transaction (the skipped members must not count towards the pool weight: 12 x 1.8M would reach the eviction threshold), v2 / v1. ahead-tip: a 10-minute-interval network whose tip is stamped 2 / 40 minutes below the 3h future limit (legal), a few pool steps, then MineBlock (the opposite edge, tips years in the past, is every other world). reverted-parent: two 1.2M-weight v1 transactions queued, a v1 parent confirmed, its v2 child pooled, a reorg that reverts the parent (pool: v1 [H1, H2, P], v2 [C unconfirmed again]), then MineBlock. heavy-parent: a pool whose first non-fitting transaction (1.1-1.4M weight behind another one) is the parent of later small ones, v2 / v1 / mixed, then MineBlock. exact-weight: a pool prefix weighing MaxBlockWeight-d for d in {0,1,5,11,12,13,500}, v1 or v2, with or without v2 block data, then MineBlock twice. full-pool: 14 transactions of 1.5-1.9M weight with distinct fee rates (eviction at 10 x MaxBlockWeight), then MineBlock; distinct = distinct op lists"
 	rng := vh.NewRNG(r.Seed).Fork()
 	n := r.Pick(60, 1200)
 	for i := 0; i < n; i++ {
@@ -546,6 +584,11 @@ func Run(r *vh.Run) {
 	}
 	for i := 0; i < r.Pick(2, 6); i++ {
 		zombie(r, rng.Fork(), fmt.Sprintf("z%d", i), i%2 == 0)
+	}
+	for i, margin := range []time.Duration{2 * time.Minute, 40 * time.Minute, 9 * time.Minute} {
+		if i < r.Pick(2, 3) {
+			aheadTip(r, rng.Fork(), fmt.Sprintf("a%d", i), margin)
+		}
 	}
 	for i := 0; i < r.Pick(2, 6); i++ {
 		revertedParent(r, rng.Fork(), fmt.Sprintf("q%d", i))
